@@ -7,14 +7,15 @@ TEXT = {
  "C04": "work is handed out in the documented fair order; nothing stays queued while an undrained worker waits",
  "C05": "tasks only reach the longest-prefix, same-platform, selected-size-class queue and undrained workers; rejection codes",
  "C06": "worker / no-waiter / retry / queue timeouts are armed, blocked calls wake, nothing leaks after quiescence",
+ "C07": "exactly one of Select/Abandoned per request, one terminal call per learner, retry once on the largest size class, background learning uncacheable and bounded",
 }
 
 def config(pid, extra_props=None):
     return {
         "id": pid,
         "coq_dirs": ["theories/Sched"],
-        "coq_targets": ["theories/Sched/Corr.vo", "theories/Sched/Properties%s.vo" % pid],
-        "properties_files": ["theories/Sched/Properties%s.v" % pid],
+        "coq_targets": ["theories/Sched/Corr.vo", "theories/Sched/Properties%s.vo" % (pid if pid != "C07" else "C07s")],
+        "properties_files": ["theories/Sched/Properties%s.v" % (pid if pid != "C07" else "C07s")],
         "required_theorems": [],
         "violation_kinds": [pid + ":"],
         "harnesses": [
